@@ -928,7 +928,7 @@ class t2data(object):
 
     def read_generators(self, infile):
         """Reads generators from file"""
-        self.generatorlist = []
+        self.generatorlist, self.generator = [], {}
         line = infile.readline()
         while line.strip():
             self.add_generator(self.read_generator(line, infile))
